@@ -4,7 +4,7 @@ use proptest::prelude::*;
 use crate::engine::{guard, Ctx, Sub, Tier};
 use crate::gen::dict::LexRow;
 use crate::props::common::{brief, build_case_dict, new_ids, tok_case, TokCase, TokCaseParams};
-use crate::refmodel::{make_tokenizer, tok_of, tokens_of, RefChars, RefDict, Tok};
+use crate::refmodel::{tok_of, tokens_of, RefChars, RefDict, Tok};
 
 pub struct Partition {
     pub long: bool,
@@ -146,7 +146,7 @@ impl Sub for Partition {
         ctx.label_if(case.mapping.is_some(), "mapped");
         for o in &case.opts {
             let dict = build_case_dict(&files, user, case.mapping.as_ref(), false)?;
-            let tokenizer = make_tokenizer(dict, o.ignore_space, o.max_grouping_len)?;
+            let tokenizer = crate::refmodel::make_tokenizer_h(dict, o.ignore_space, o.max_grouping_len, o.history)?;
             let mut worker = tokenizer.new_worker();
             for s in &case.sentences {
                 let repeated;
